@@ -19,5 +19,23 @@ def sub(name, body, s):
     return s[:a] + body + s[b:]
 s = sub("fixed-table", fixed, s)
 s = sub("open-table", opn, s)
+# seeded changes
+import glob
+rows = "| id | property | change (author's summary) | needs to manifest | first verdict | now | keys that fire |\n|---|---|---|---|---|---|---|\n"
+for d in sorted(glob.glob(os.path.join(HERE, "seeded", "C*-*"))):
+    try:
+        m = json.load(open(os.path.join(d, "meta.json")))
+    except Exception:
+        continue
+    v = m.get("verification", {})
+    re_ = m.get("recheck", {})
+    first = "caught" if v.get("caught") else "MISSED"
+    now = "caught" if (re_.get("caught") if re_ else v.get("caught")) else "MISSED"
+    keys = (re_.get("keys") if re_ else v.get("check_keys")) or []
+    summ = str(m.get("summary", "")).replace("|", "\\|").replace("\n", " ")[:260]
+    need = str(m.get("needs_to_manifest", "")).replace("|", "\\|").replace("\n", " ")[:220]
+    rows += "| %s | %s | %s | %s | %s | %s | %s |\n" % (os.path.basename(d), m.get("property", ""), summ, need, first, now,
+            ", ".join("`%s`" % k.replace("|", "\\|")[:90] for k in keys[:2]))
+s = sub("seeded-table", rows, s)
 open(p, "w").write(s)
 print("DESIGN.md tables: %d fixed, %d open" % (len(k["fixed"]), len(k["open"])))
